@@ -2,6 +2,7 @@ import json
 import logging
 import os
 import time
+import uuid
 from pathlib import PurePath
 from typing import Any, Optional, List, Union, Dict
 from collections import OrderedDict
@@ -175,7 +176,8 @@ class LocalFileStore(Store):
         if not os.path.isdir(internal_dir):
             if create_dirs:
                 _logger.debug(f"Creating dir {internal_dir}")
-                os.makedirs(internal_dir)
+                # Another process may be creating the same directories at the same time.
+                os.makedirs(internal_dir, exist_ok=True)
             else:
                 raise DDSException(
                     f"Path {internal_dir} is not a directory",
@@ -184,7 +186,7 @@ class LocalFileStore(Store):
         if not os.path.isdir(data_dir):
             if create_dirs:
                 _logger.debug(f"Creating dir {data_dir}")
-                os.makedirs(data_dir)
+                os.makedirs(data_dir, exist_ok=True)
             else:
                 raise DDSException(
                     f"Path {data_dir} is not a directory",
@@ -192,7 +194,17 @@ class LocalFileStore(Store):
                 )
         p_blobs = os.path.join(self._root, "blobs")
         if not os.path.exists(p_blobs):
-            os.makedirs(p_blobs)
+            os.makedirs(p_blobs, exist_ok=True)
+
+    @staticmethod
+    def _tmp_name(p: str) -> str:
+        """
+        A name in the same directory as p, which is not used by any other process.
+
+        Files and links are first created under such a name and then moved to their final name with os.replace,
+        which is atomic: another process (or this process after a crash) sees either nothing or the complete object.
+        """
+        return f"{p}.tmp.{os.getpid()}.{uuid.uuid4().hex}"
 
     def __repr__(self):
         return f"LocalFileStore(internal_dir={self._root} data_dir={self._data_root})"
@@ -218,15 +230,19 @@ class LocalFileStore(Store):
             STU.from_type(type(blob)), codec
         )
         p = os.path.join(self._root, "blobs", key)
+        # The blob is written under a temporary name and then moved to its final name: it is never seen incomplete.
+        tmp_p = self._tmp_name(p)
         if isinstance(protocol, CodecProtocol):
-            protocol.serialize_into(blob, GenericLocation(p))
+            protocol.serialize_into(blob, GenericLocation(tmp_p))
         elif isinstance(protocol, FileCodecProtocol):
-            # This is the local file system, we can directly copy the file to its final destination
-            protocol.serialize_into(blob, PurePath(p))
+            protocol.serialize_into(blob, PurePath(tmp_p))
         else:
             raise DDSException(f"Wrong protocol type: {type(protocol)} {protocol}")
+        os.replace(tmp_p, p)
+        # The metadata is written last, in the same way: a blob is present when its metadata is.
         meta_p = os.path.join(self._root, "blobs", key + ".meta")
-        with open(meta_p, "wb") as f:
+        tmp_meta_p = self._tmp_name(meta_p)
+        with open(tmp_meta_p, "wb") as f:
             f.write(
                 json.dumps(
                     {
@@ -235,11 +251,13 @@ class LocalFileStore(Store):
                     }
                 ).encode("utf-8")
             )
+        os.replace(tmp_meta_p, meta_p)
         _logger.debug(f"Committed new blob in {key}")
 
     def has_blob(self, key: PyHash) -> bool:
-        p = os.path.join(self._root, "blobs", key)
-        return os.path.exists(p)
+        # The metadata is written after the blob: its presence means that the blob is complete.
+        meta_p = os.path.join(self._root, "blobs", key + ".meta")
+        return os.path.exists(meta_p)
 
     def sync_paths(self, paths: "OrderedDict[DDSPath, PyHash]") -> None:
         for (path, key) in paths.items():
@@ -249,15 +267,16 @@ class LocalFileStore(Store):
             loc = os.path.join(loc_dir, splits[-1])
             if not os.path.exists(loc_dir):
                 _logger.debug(f"Creating dir {loc_dir}")
-                os.makedirs(loc_dir)
+                os.makedirs(loc_dir, exist_ok=True)
             loc_blob = os.path.join(self._root, "blobs", key)
             if os.path.exists(loc) and os.path.realpath(loc) == loc_blob:
                 _logger.debug(f"Link {loc} up to date")
             else:
-                if os.path.exists(loc):
-                    os.remove(loc)
                 _logger.info(f"Link {loc} -> {loc_blob}")
-                os.symlink(loc_blob, loc)
+                # The link is replaced atomically: the path always refers to its previous blob or to the new one.
+                tmp_loc = self._tmp_name(loc)
+                os.symlink(loc_blob, tmp_loc)
+                os.replace(tmp_loc, loc)
 
     def fetch_paths(self, paths: List[DDSPath]) -> "OrderedDict[DDSPath, PyHash]":
         res = OrderedDict()
